@@ -22,7 +22,7 @@ REQUIRED_CLASSES = ('obj:AtomGro', 'obj:Residue', 'obj:Molecule', 'obj:Molecule-
                     'src:shipped', 'op:copy', 'op:deep_copy', 'op:move', 'op:move_to', 'op:rotate', 'op:set-positions',
                     'op:set-velocities', 'op:set-velocities-none', 'op:set-ids', 'op:set-resids', 'op:view-index',
                     'op:view-iterate', 'op:view-inplace', 'op:shared-array', 'op:rename-deep-copy', 'op:atoms-property',
-                    'src:alignment-reassigned', 'assign:int64', 'assign:strided', 'assign:fortran', 'assign:whole-residue-through-views')
+                    'src:alignment-reassigned', 'molecule:residues-sharing-a-number', 'assign:int64', 'assign:strided', 'assign:fortran', 'assign:whole-residue-through-views')
 RULE = ('operation histories (<= 40 operations over <= 8 live objects) drawn from {copy, deep_copy, move, move_to, rotate, '
         'set positions/velocities(None)/atom numbers/residue numbers, view assignment by index and by iteration, the same '
         'ndarray handed to two setters, rename on deep copies, mutate what the atoms property returned}. Non-trivial: the '
@@ -135,6 +135,9 @@ def system_molecule(rng):
     return s, k, s[k]
 
 
+_flags = []
+
+
 def memory_molecule(rng, multi):
     n = int(rng.integers(2, 12))
     edges = gen.random_tree(rng, n)
@@ -146,7 +149,15 @@ def memory_molecule(rng, multi):
         cuts = sorted(int(x) for x in rng.choice(np.arange(1, n), nres - 1, replace=False))
         rid = [int(r) + 1 for r in np.searchsorted(cuts, np.arange(n), side='right')]
         rn = ['RA', 'RB', 'RC', 'RD']
-        return gen.make_molecule('MEM', gen.atom_names(n, 'A'), edges, pos, resnames=[rn[r - 1] for r in rid], resids=rid, vel=vel, atomids=ids)
+        names = [rn[r - 1] for r in rid]
+        if rng.random() < 0.4:
+            # neighbouring residues under one residue number (different names keep them apart), other numbers arbitrary
+            nums = [int(rng.integers(1, 900))]
+            for _ in range(nres - 1):
+                nums.append(nums[-1] if rng.random() < 0.6 else nums[-1] + int(rng.integers(1, 4)))
+            rid = [nums[r - 1] for r in rid]
+            _flags.append('molecule:residues-sharing-a-number')
+        return gen.make_molecule('MEM', gen.atom_names(n, 'A'), edges, pos, resnames=names, resids=rid, vel=vel, atomids=ids)
     return gen.make_molecule('MEM', gen.atom_names(n, 'A'), edges, pos, vel=vel, atomids=ids)
 
 
@@ -233,6 +244,8 @@ def run_case(ctx, case):
         m = memory_molecule(rng, False)
         add(m[0].atom_gro.copy(), 'atom', True)
     ctx.count('evaluations')
+    while _flags:
+        ctx.hit(_flags.pop())
     nops = int(rng.integers(10, 41))
     copied = False
     nontrivial = False
